@@ -148,4 +148,51 @@ ChainScen(pk) ==
   MkScen(<<MkRule(10, pk.p, <<pk.l1>> \o pk.ls),
            MkRule(20, pk.p, <<RuleLink(<<T("MATCHED_VAR")>>, << >>, OpLit("streq", s_x), FALSE, << >>)>>)>>, pk.rq, "On")
 
+(***************************************************************************)
+(* Family "acts" (C09): non-disruptive actions once per matched value,     *)
+(* macros expanded at that moment, setvar arithmetic sums, chain starter   *)
+(* disruptive actions once per completed chain, HIGHEST_SEVERITY.          *)
+(*   rule 5  : SecAction phase 1  setvar:tx.k=2   (operand for macros)     *)
+(*   rule 10 : SecRule ARGS_GET "@streq x" (+t:lowercase,multiMatch)       *)
+(*             [chain SecRule ARGS_POST "@streq x"]  with an action list   *)
+(*   rule 20 : second counting rule (thorough)                             *)
+(*   rule 90 : SecRule TX:n "@ge 2" deny   (the anomaly threshold)         *)
+(***************************************************************************)
+s_k  == <<107>>         \* "k"
+s_s  == <<115>>         \* "s"
+s_c_ == <<99, 95>>      \* "c_"
+s_y  == <<121>>         \* "y"
+KN == <<Lit(s_n)>>
+KS == <<Lit(s_s)>>
+ActLists ==
+  { <<ASetvar(KN, "add", <<Lit(s_1)>>)>>,
+    <<ASetvar(KN, "add", <<Lit(s_2)>>), ASetvar(KN, "add", <<Lit(s_1)>>)>>,
+    <<ASetvar(KN, "sub", <<Lit(s_1)>>)>>,
+    <<ASetvar(KN, "add", <<Mac("TX", s_k)>>)>>,
+    <<ASetvar(KS, "set", <<Mac("MATCHED_VAR", << >>)>>), ASetvar(KN, "add", <<Lit(s_1)>>)>>,
+    <<ASetvar(KS, "set", <<Lit(s_x)>>), ASetvar(KS, "del", << >>)>>,
+    <<ASetvar(<<Lit(s_c_), Mac("MATCHED_VAR", << >>)>>, "add", <<Lit(s_1)>>)>>,
+    <<ASetvar(KN, "set", <<Lit(s_3)>>), ASetvar(KN, "add", <<Lit(s_1)>>)>> }
+ActsChainKinds == {"none", "plain", "counting", "denyStarter"}
+ActsRule10(pk) ==
+  LET acts == pk.acts \o (IF pk.ch = "denyStarter" THEN <<A("deny")>> ELSE << >>)
+      l1 == RuleLink(<<T("ARGS_GET")>>, IF pk.mm THEN <<"lowercase">> ELSE << >>, OpLit("streq", s_x), pk.mm, acts)
+      l2 == RuleLink(<<T("ARGS_POST")>>, << >>, OpLit("streq", s_x), FALSE,
+                     IF pk.ch = "counting" THEN <<ASetvar(KN, "add", <<Lit(s_1)>>)>> ELSE << >>)
+  IN [MkRule(10, pk.p, IF pk.ch = "none" THEN <<l1>> ELSE <<l1, l2>>) EXCEPT !.sev = pk.sev]
+ActsRule20(pk) ==
+  [MkRule(20, pk.p2, <<RuleLink(<<T("ARGS_GET")>>, << >>, Op("streq", <<Lit(s_y)>>, TRUE), FALSE, pk.acts2)>>) EXCEPT !.sev = 4]
+ActsEntries == {E("ARGS_GET", k, v) : k \in {s_a, s_b}, v \in {s_x, s_X, s_y}}
+ActsPicks(maxEntries, two, slice, slices) ==
+  [acts : SliceOf(ActLists, slice, slices), mm : BOOLEAN, ch : ActsChainKinds, sev : {0 - 1, 2, 5}, p : {1, 2},
+   acts2 : IF two THEN {<<ASetvar(KN, "add", <<Lit(s_1)>>)>>, <<ASetvar(KN, "sub", <<Lit(s_2)>>)>>} ELSE {<< >>},
+   p2 : IF two THEN {1, 2} ELSE {0},
+   rq : SeqsUpTo(ActsEntries, maxEntries), post : BOOLEAN]
+ActsScen(pk) ==
+  MkScen(<<MkRule(5, 1, <<ActLink(<<ASetvar(<<Lit(s_k)>>, "set", <<Lit(s_2)>>)>>)>>),
+           ActsRule10(pk)>>
+         \o (IF pk.p2 = 0 THEN << >> ELSE <<ActsRule20(pk)>>)
+         \o <<[MkRule(90, 2, <<RuleLink(<<TK("TX", s_n)>>, << >>, OpLit("ge", s_2), FALSE, <<A("deny")>>)>>) EXCEPT !.sev = 3]>>,
+         pk.rq \o (IF pk.post THEN <<E("ARGS_POST", s_a, s_x)>> ELSE << >>), "On")
+
 =============================================================================
